@@ -500,6 +500,18 @@ func (c *Ctx) flagOwners() {
 
 // constInt64 is Const.Int64 without its panic: the integer value of an integer (or integral
 // float) constant; for any other constant (a string, a bool, nil) a value no rule compares with.
+// constFitsInt64: the constant is an integer that an int64 holds exactly.
+func constFitsInt64(k *ssa.Const) bool {
+	if k == nil || k.Value == nil {
+		return true
+	}
+	if k.Value.Kind() != constant.Int {
+		return true
+	}
+	_, exact := constant.Int64Val(k.Value)
+	return exact
+}
+
 func constInt64(k *ssa.Const) int64 {
 	if k == nil || k.Value == nil {
 		return 0
